@@ -197,6 +197,13 @@ def enum_structural():
         for n in (1, 2, 3):
             for r in (8, 9, 16, 17):
                 yield ('tile_many',), {'op': 'tile', 'r': r, 'in': _src(kind, 1, n)}
+        # n-ary combinators called with a single dataset (ds.zip(), lazy_dataset.concatenate(ds)): still a zip of one
+        for n in (0, 1, 3):
+            for op in ('zip', 'concat', 'intersperse'):
+                if op == 'intersperse' and n == 0:
+                    continue
+                for how in ('method', 'function'):
+                    yield ('nary_single',), {'op': op, 'how': how, 'ins': [_src(kind, 1, n)]}
         # a lazy cache directly below batch(b), read BY INDEX from above (the batch probes its input beyond the end)
         for n in range(0, 8):
             for bs in (1, 2, 3, 4):
